@@ -2,6 +2,7 @@ package props
 
 import (
 	"fmt"
+	"time"
 
 	cerrors "github.com/pip-services3-gox/pip-services3-commons-gox/errors"
 	"strings"
@@ -29,6 +30,10 @@ type c05Step struct {
 	Abort   int    `json:"abort"`   // tokenizers: fetch only this many tokens (-1 = all)
 	HasNext int    `json:"hasNext"` // tokenizers: HasNextToken calls before every NextToken
 	Fn      int    `json:"fn"`      // calculator: which user function list the evaluation gets (Fx, Gx differ per list)
+	// tokenizers: the entry point used for this feed (0 = NextToken loop, 1 = TokenizeBuffer, 2 = TokenizeBufferToStrings,
+	// 3 = TokenizeStreamToStrings, 4 = TokenizeStream). Parsers, calculator, template: 1 = Clear() is called before
+	// the feed ("cleans up ... from all data"), 3 = Clear() and automatic variables switched off for this feed.
+	Mode int `json:"mode,omitempty"`
 }
 
 // userFunctions returns function list j: Fx() = 10*j+1, Gx(a) = [j, a].
@@ -56,7 +61,9 @@ type c05Case struct {
 
 var c05Kinds = []string{"generic", "expression", "csv", "mustache", "exprparser", "calculator", "mustacheparser", "template", "csv-custom", "generic-custom"}
 
-var c05Vars = []binding{{"a", vInt(3)}, {"b", vInt(4)}, {"c", vString("x")}, {"d", vArray(vInt(1), vInt(2))}, {"e", vNull()}, {"x", vInt(7)}, {"y", vDouble(2.5)}, {"f", vBool(true)}}
+// one value of every scalar type: an operator that writes into an operand changes what the next feed reads
+var c05Vars = []binding{{"a", vLong(3)}, {"b", vInt(4)}, {"c", vString("x")}, {"d", vArray(vInt(1), vInt(2))}, {"e", vNull()}, {"x", vFloat(7)}, {"y", vDouble(2.5)}, {"f", vBool(true)},
+	{"g", vSpan(1500 * time.Millisecond)}, {"h", vInt(-9)}}
 var c05Map = map[string]string{"a": "A", "b": "", "c": "x/y", "name": "N", "if": "I"}
 
 // c05Instance wraps one reusable instance; run returns the observation for an input.
@@ -142,6 +149,27 @@ func (in *c05Instance) run(st c05Step) (obs string) {
 	f := guard(func() {
 		switch in.kind {
 		case "generic", "expression", "csv", "mustache", "csv-custom", "generic-custom":
+			if st.Mode != 0 {
+				var toks []tk
+				switch st.Mode {
+				case 1:
+					for _, t := range in.tok.TokenizeBuffer(st.Input) {
+						toks = append(toks, tk{t.Type(), t.Value(), t.Line(), t.Column()})
+					}
+				case 4:
+					for _, t := range in.tok.TokenizeStream(rio.NewStringScanner(st.Input)) {
+						toks = append(toks, tk{t.Type(), t.Value(), t.Line(), t.Column()})
+					}
+				case 2:
+					obs = fmt.Sprintf("strings %q", in.tok.TokenizeBufferToStrings(st.Input))
+					return
+				default:
+					obs = fmt.Sprintf("strings %q", in.tok.TokenizeStreamToStrings(rio.NewStringScanner(st.Input)))
+					return
+				}
+				obs = tksString(toks)
+				return
+			}
 			in.tok.SetReader(rio.NewStringScanner(st.Input))
 			var toks []tk
 			limit := len([]rune(st.Input)) + 2
@@ -175,14 +203,31 @@ func (in *c05Instance) run(st c05Step) (obs string) {
 				}
 			}
 		case "exprparser":
+			if st.Mode&1 != 0 {
+				in.ep.Clear()
+			}
 			err := in.ep.ParseString(st.Input)
 			obs = errRepr(err)
 			if err == nil {
 				obs += " | " + exprTokensRepr(in.ep.ResultTokens()) + " | vars " + strings.Join(in.ep.VariableNames(), ",") + " | initial " + exprTokensRepr(in.ep.InitialTokens())
 			}
 		case "calculator":
+			if st.Mode&1 != 0 {
+				in.calc.Clear()
+				in.calc.SetAutoVariables(st.Mode&2 == 0)
+			} else {
+				in.calc.SetAutoVariables(true)
+			}
 			err := in.calc.SetExpression(st.Input)
 			obs = errRepr(err)
+			if st.Mode&1 != 0 {
+				// after Clear the default variables are those of this expression alone
+				var names []string
+				for _, v := range in.calc.DefaultVariables().GetAll() {
+					names = append(names, v.Name())
+				}
+				obs += " | default variables [" + strings.Join(names, ",") + "]"
+			}
 			if err == nil {
 				obs += " | " + exprTokensRepr(in.calc.ResultTokens())
 				if in.vars == nil {
@@ -195,14 +240,30 @@ func (in *c05Instance) run(st c05Step) (obs string) {
 				obs += " | defaults: " + resultRepr(v, e)
 			}
 		case "mustacheparser":
+			if st.Mode&1 != 0 {
+				in.mp.Clear()
+			}
 			err := in.mp.ParseString(st.Input)
 			obs = errRepr(err)
 			if err == nil {
 				obs += " | " + mustacheTokensRepr(in.mp.ResultTokens()) + " | vars " + strings.Join(in.mp.VariableNames(), ",")
 			}
 		case "template":
+			if st.Mode&1 != 0 {
+				in.tmpl.Clear()
+				in.tmpl.SetAutoVariables(st.Mode&2 == 0)
+			} else {
+				in.tmpl.SetAutoVariables(true)
+			}
 			err := in.tmpl.SetTemplate(st.Input)
 			obs = errRepr(err)
+			if st.Mode&1 != 0 {
+				obs += " | default variables " + sortedMap(in.tmpl.DefaultVariables())
+				if err == nil {
+					s, e := in.tmpl.Evaluate()
+					obs += fmt.Sprintf(" | defaults render %q %s", s, errRepr(e))
+				}
+			}
 			if err == nil {
 				s, e := in.tmpl.EvaluateWithVariables(c05Map)
 				obs += fmt.Sprintf(" | %q %s", s, errRepr(e))
@@ -260,6 +321,7 @@ var c05Pool = []string{
 	"a", "abc", "A1_b", "é", "中文", "1", "12.5", ".5", "-3", "1e5", "2.5E-3", "'s'", "'a''b'", "\"q\"", "'é'", "/* c */ 1", "# c\n1", "x // y",
 	" ", " \t\n ", "a b", "a\nb\r\nc", "a+b*2", "(a+b)*x", "d[1]", "Min(a,b,x)", "a IS NOT NULL", "x NOT IN d", "NOT f", "a LIKE c", "-a", "c+c",
 	"名，b", "，", "a，b‖c;d", "«x，y»，z", "名", "a ≠ b ≤≥ c → d", "≤", "x　y", "日本語 テスト",
+	"-y", "-x - a", "-b + -h", "-g", "NOT f", "Abs(h) + Abs(a)", "a % 2 + b ^ 2", "b << 1", "h >> 1",
 	"Round(y) + Floor(y)", "y * 2", "Ceil(y) - y", "Abs(y) + Trunc(y)", "Hello, {{ name }}!", "text only",
 	"c = 'x'", "c = 'X'", "'abc' + c", "'ABC' + c", "{{Name}} x", "{{name}} X", "Fx() + a", "Gx(b)", "Gx(Fx(), c)", "v1 + v2 * total", "Total + rate", "\"qty[1]\" + \"qty{1}\"",
 	"'abc", "\"abc", "/* x", "{{a", "{{#a}}x", "{{/a}}", "a +", "(a", "a)", "a[1", "f(", "1 2", "a,,b", ",", "\r\n", "\n\r", "\"x\",\"y\"\r\nz", "a;b", "😀", "a 😀 b", "{{ 😀 }}", "",
@@ -318,15 +380,21 @@ func TestC05_Exhaustive(t *testing.T) {
 				optSets = []int{-1, 0}
 			}
 			for _, o := range optSets {
-				c05Run(rec, c05Case{kind, o, []c05Step{{a, -1, 0, 0}, {b, -1, 0, 1}}})
+				c05Run(rec, c05Case{kind, o, []c05Step{{a, -1, 0, 0, 0}, {b, -1, 0, 1, 0}}})
 				if isTok {
-					c05Run(rec, c05Case{kind, o, []c05Step{{a, 1, 2, 0}, {b, -1, 0, 0}}})
-					c05Run(rec, c05Case{kind, o, []c05Step{{a, -1, 0, 0}, {b, -1, 3, 0}}})
+					c05Run(rec, c05Case{kind, o, []c05Step{{a, 1, 2, 0, 0}, {b, -1, 0, 0, 0}}})
+					c05Run(rec, c05Case{kind, o, []c05Step{{a, -1, 0, 0, 0}, {b, -1, 3, 0, 0}}})
+					// the other entry points on a used instance (after a complete and after an abandoned feed)
+					c05Run(rec, c05Case{kind, o, []c05Step{{a, -1, 0, 0, 0}, {b, -1, 0, 0, 1 + i%4}}})
+					c05Run(rec, c05Case{kind, o, []c05Step{{a, 1, 1, 0, 0}, {b, -1, 0, 0, 1 + (i/4)%4}}})
+				} else {
+					// Clear() between the feeds (with and without automatic variables afterwards)
+					c05Run(rec, c05Case{kind, o, []c05Step{{a, -1, 0, 0, 0}, {b, -1, 0, 1, 1 + 2*(i%2)}}})
 				}
 			}
 			for k := 0; k < triples/len(c05Kinds); k++ {
 				third := c05Pool[int(splitmix(&x)%uint64(n))]
-				c05Run(rec, c05Case{kind, -1, []c05Step{{a, -1, 0, 0}, {b, -1, 0, 1}, {third, -1, 0, 0}}})
+				c05Run(rec, c05Case{kind, -1, []c05Step{{a, -1, 0, 0, 0}, {b, -1, 0, 1, 0}, {third, -1, 0, 0, 0}}})
 			}
 		}
 	})
@@ -356,7 +424,7 @@ func TestC05_RapidSM(t *testing.T) {
 				if kind == "mustacheparser" || kind == "template" {
 					in = strings.ReplaceAll(strings.ReplaceAll("{{"+in+"}}", " + ", "}}{{"), " * 2", "")
 				}
-				steps = append(steps, c05Step{in, -1, 0, 0})
+				steps = append(steps, c05Step{in, -1, 0, 0, 0})
 				continue
 			}
 			switch rapid.IntRange(0, 6).Draw(rt, "mut") {
@@ -382,8 +450,13 @@ func TestC05_RapidSM(t *testing.T) {
 					in = sb.String()
 				}
 			}
-			st := c05Step{in, -1, 0, rapid.IntRange(0, 2).Draw(rt, "fn")}
-			if isTok {
+			st := c05Step{in, -1, 0, rapid.IntRange(0, 2).Draw(rt, "fn"), 0}
+			if !isTok && rapid.IntRange(0, 5).Draw(rt, "clear") == 0 {
+				st.Mode = rapid.SampledFrom([]int{1, 3}).Draw(rt, "clearmode")
+			}
+			if isTok && rapid.IntRange(0, 3).Draw(rt, "entry") == 0 {
+				st.Mode = rapid.IntRange(1, 4).Draw(rt, "entrymode")
+			} else if isTok {
 				if rapid.IntRange(0, 3).Draw(rt, "abort") == 0 {
 					st.Abort = rapid.IntRange(0, 4).Draw(rt, "k")
 				}
